@@ -19,7 +19,8 @@ fn do_case(case: Vec<i128>) {
                 1 => forms::run::<u32, u32, u32, N>(&case),
                 2 => forms::run::<Tr, u32, Tr, N>(&case),
                 3 => forms::run::<u32, Tr, Tr, N>(&case),
-                _ => forms::run::<forms::Cn, forms::Cn, forms::Cn, N>(&case),
+                4 => forms::run::<forms::Cn, forms::Cn, forms::Cn, N>(&case),
+                _ => forms::run::<forms::Zs, forms::Zs, forms::Zs, N>(&case),
             },
             panic!("length {} not monomorphised", n)
         )
